@@ -407,6 +407,9 @@ class World:
                     self.stats['time_limit_hit'] += 1
                     break
                 if nxt > self.now:
+                    for mon in self.monitors:
+                        if hasattr(mon, 'on_clock_jump'):
+                            mon.on_clock_jump(self, nxt)
                     self.now = nxt
                     self.stats['clock_jumps'] += 1
                 continue
@@ -477,7 +480,8 @@ class World:
         if self.keep_events:
             self.events.append((self.steps, p.pid, ran, fired, len(handles), lp.wrote - wrote0))
         for mon in self.monitors:
-            mon.after_step(self, p)
+            if hasattr(mon, 'after_step'):
+                mon.after_step(self, p)
 
     def _deliver(self, p, src, v, handles):
         kind, key, obj, avail = src
